@@ -248,7 +248,7 @@ theorem skipLoop_space_cons (f : Nat) (u : Bool) (l c : Nat) (b : UInt8) (d : By
 
 /-- a text at which the tokenizer stops skipping: a byte that is neither white space nor the start of a comment -/
 def TokStart (d : Bytes) : Prop :=
-  ∃ b tl, d = b :: tl ∧ isSpace b = false ∧ startsWith2 d 47 47 = false ∧ startsWith2 d 47 42 = false
+  ∃ b tl, d = b :: tl ∧ isSpace b = false ∧ isCont b = false ∧ startsWith2 d 47 47 = false ∧ startsWith2 d 47 42 = false
 
 theorem utf8_sep {d : Bytes} (h : IsSep d) {tail : Bytes} (ht : Utf8 tail) : Utf8 (d ++ tail) := by
   induction h with
@@ -489,5 +489,319 @@ theorem lexNumber_spell (r : Nat) (ds rest : Bytes) (v : Int) (hrx : r = 2 ∨ r
           · simp at hb
     · exact isDigit_ascii (hds b hb)
   rw [Pos.adv_ascii (l, k) _ hasc]
+
+/-! ### character literals followed by any text -/
+
+theorem lexChar_raw_then (c : Nat) (hc : RawChar c) (rest : Bytes) (hur : Utf8 rest) (l k : Nat) :
+    lexChar ⟨39 :: encodeChar c ++ 39 :: rest, false, l, k⟩ =
+      .tok ⟨l, k, .num (Int.ofNat c)⟩
+        ⟨rest, false, (adv (l, k) (39 :: encodeChar c ++ [39])).1, (adv (l, k) (39 :: encodeChar c ++ [39])).2⟩ := by
+  obtain ⟨hs, hadm⟩ := hc
+  have hq : Utf8 ((39 : UInt8) :: rest) := utf8_ascii_cons 39 (by decide) hur
+  have hrest : Utf8 (encodeChar c ++ 39 :: rest) := utf8_encodeChar c hs hq
+  have hall : Utf8 ((39 : UInt8) :: encodeChar c ++ 39 :: rest) := utf8_ascii_cons 39 (by decide) hrest
+  unfold lexChar
+  have hsl : sliceFrom ((39 : UInt8) :: encodeChar c ++ 39 :: rest) 1 = some (encodeChar c ++ 39 :: rest) := by
+    have := sliceFrom_split [(39 : UInt8)] (encodeChar c ++ 39 :: rest) (utf8_head? hrest)
+    simpa using this
+  simp only [hsl]
+  have hbody : lexCharBody false (encodeChar c ++ 39 :: rest) = .ok (encodeChar c).length c := by
+    unfold lexCharBody lexCharFirst
+    rw [decodeChar_encodeChar c hs]
+    simp only
+    have h92 : (c == 92) = false := by simp; omega
+    have hok : (c == 9 || (decide (32 ≤ c) && decide (c ≤ 126)) || decide (128 ≤ c)) = true := by
+      simp; omega
+    simp only [h92, Bool.false_eq_true, if_false, hok, if_true]
+    have : (encodeChar c ++ 39 :: rest).drop (encodeChar c).length = 39 :: rest := by simp
+    rw [this, decodeChar_ascii_cons 39 rest (by decide)]
+    rfl
+  rw [hbody]
+  simp only
+  have hl : 1 + (encodeChar c).length + 1 = ((39 : UInt8) :: encodeChar c ++ [39]).length := by simp; omega
+  rw [hl]
+  exact emit_eq _ ((39 : UInt8) :: encodeChar c ++ [39]) rest _ _ (by simp) hall hur (by
+    intro hlt b hb
+    simp only [decide_eq_true_eq] at hlt
+    rw [encodeChar_ascii c hlt] at hb
+    simp at hb
+    rcases hb with rfl | rfl | rfl
+    · decide
+    · rw [toNat_toUInt8 _ (by omega)]; omega
+    · decide)
+
+theorem charEsc_cases {e v : Nat} (he : charEsc e = some v) :
+    (e = 116 ∧ v = 9) ∨ (e = 110 ∧ v = 10) ∨ (e = 114 ∧ v = 13) ∨ (e = 34 ∧ v = 34) ∨ (e = 39 ∧ v = 39) ∨
+      (e = 92 ∧ v = 92) := by
+  unfold charEsc at he
+  repeat' split at he
+  all_goals first
+    | (simp at he; omega)
+    | (simp at he)
+
+theorem lexChar_esc_then (e : UInt8) (v : Nat) (he : charEsc e.toNat = some v) (rest : Bytes) (hur : Utf8 rest)
+    (l k : Nat) :
+    lexChar ⟨39 :: 92 :: e :: 39 :: rest, false, l, k⟩ =
+      .tok ⟨l, k, .num (Int.ofNat v)⟩ ⟨rest, false, (adv (l, k) [39, 92, e, 39]).1, (adv (l, k) [39, 92, e, 39]).2⟩ := by
+  have hc := charEsc_cases he
+  have he' : e.toNat < 128 ∧ e.toNat ≠ 10 ∧ v < 128 := by omega
+  have hasc : ∀ b ∈ ([39, 92, e, 39] : Bytes), b.toNat < 128 ∧ b.toNat ≠ 10 := by
+    intro b hb
+    rcases List.mem_cons.mp hb with rfl | hb
+    · decide
+    · rcases List.mem_cons.mp hb with rfl | hb
+      · decide
+      · rcases List.mem_cons.mp hb with rfl | hb
+        · exact ⟨he'.1, he'.2.1⟩
+        · simp at hb; subst hb; decide
+  have hall : Utf8 ((39 : UInt8) :: 92 :: e :: 39 :: rest) :=
+    utf8_ascii_append [39, 92, e, 39] (fun b hb => (hasc b hb).1) hur
+  have hin : Utf8 ((92 : UInt8) :: e :: 39 :: rest) := utf8_tail_of_ascii hall (by decide)
+  unfold lexChar
+  have hsl : sliceFrom ((39 : UInt8) :: 92 :: e :: 39 :: rest) 1 = some (92 :: e :: 39 :: rest) := by
+    have := sliceFrom_split [(39 : UInt8)] (92 :: e :: 39 :: rest) (utf8_head? hin)
+    simpa using this
+  simp only [hsl]
+  have hbody : lexCharBody false (92 :: e :: 39 :: rest) = .ok 2 v := by
+    unfold lexCharBody lexCharFirst
+    rw [decodeChar_ascii_cons 92 _ (by decide)]
+    simp only [show (92 : UInt8).toNat = 92 from rfl, beq_self_eq_true, if_true, List.drop_succ_cons, List.drop_zero]
+    rw [decodeChar_ascii_cons e _ he'.1]
+    simp only
+    rcases hc with ⟨h, rfl⟩ | ⟨h, rfl⟩ | ⟨h, rfl⟩ | ⟨h, rfl⟩ | ⟨h, rfl⟩ | ⟨h, rfl⟩ <;>
+      simp [h, decodeChar_ascii_cons 39 rest (by decide)]
+  rw [hbody]
+  simp only
+  have hl : 1 + 2 + 1 = ([39, 92, e, 39] : Bytes).length := rfl
+  rw [hl]
+  exact emit_eq _ [39, 92, e, 39] rest _ _ rfl hall hur (fun _ => hasc)
+
+/-! ### `do_next` on any spelling -/
+
+theorem spell_ne_nil {bs : Bytes} {t : Tok} {nx : Option UInt8} (h : Spell bs t nx) : bs ≠ [] := by
+  cases h with
+  | ident _ _ hs _ => intro e; subst e; simp [identOk] at hs
+  | num r ds v nx _ hne _ _ _ => intro e; simp at e; exact hne e.2
+  | _ => simp
+
+theorem doNext_spell (bs rest : Bytes) (t : Tok) (hs : Spell bs t rest.head?) (hur : Utf8 rest) (l k : Nat) :
+    doNext ⟨bs ++ rest, false, l, k⟩ = .tok ⟨l, k, t⟩ ⟨rest, false, (adv (l, k) bs).1, (adv (l, k) bs).2⟩ := by
+  cases hs with
+  | punct c t nx hp _ => exact doNext_punct c t rest hp hur l k
+  | div => exact doNext_punct 47 .div rest (by decide) hur l k
+  | shl => exact doNext_shift 60 .shl rest (Or.inl ⟨rfl, rfl⟩) hur l k
+  | shr => exact doNext_shift 62 .shr rest (Or.inr ⟨rfl, rfl⟩) hur l k
+  | ident _ _ hs hf =>
+    cases bs with
+    | nil => simp [identOk] at hs
+    | cons b0 tl =>
+      have hb0 : identStart b0 = true := by
+        simp only [identOk, Bool.and_eq_true] at hs; exact hs.1
+      rw [doNext_ident ⟨b0 :: tl ++ rest, false, l, k⟩ b0 (tl ++ rest) rfl hb0]
+      exact lexIdent_exact b0 tl rest hs hf hur l k
+  | num r ds v nx hrx hne hds hv hf =>
+    obtain ⟨d0, dtl, hdd, h0⟩ : ∃ d0 dtl, radixPrefix r ++ ds = d0 :: dtl ∧ 48 ≤ d0.toNat ∧ d0.toNat ≤ 57 := by
+      rcases hrx with rfl | rfl | rfl | rfl
+      · exact ⟨48, 98 :: ds, by simp [radixPrefix], by decide⟩
+      · exact ⟨48, 111 :: ds, by simp [radixPrefix], by decide⟩
+      · cases ds with
+        | nil => exact absurd rfl hne
+        | cons a ds' => exact ⟨a, ds', by simp [radixPrefix], isDigit10_range (hds a (by simp))⟩
+      · exact ⟨48, 120 :: ds, by simp [radixPrefix], by decide⟩
+    rw [doNext_number ⟨radixPrefix r ++ ds ++ rest, false, l, k⟩ d0 (dtl ++ rest) (by simp [hdd]) h0]
+    exact lexNumber_spell r ds rest v hrx hne hds hv hf hur l k
+  | chr c nx hc =>
+    have : (39 :: encodeChar c ++ [39]) ++ rest = 39 :: encodeChar c ++ 39 :: rest := by simp
+    rw [this, doNext_char _ 39 (encodeChar c ++ 39 :: rest) rfl (by decide)]
+    exact lexChar_raw_then c hc rest hur l k
+  | chrEsc e v nx he =>
+    have : ([39, 92, e, 39] : Bytes) ++ rest = 39 :: 92 :: e :: 39 :: rest := rfl
+    rw [this, doNext_char _ 39 (92 :: e :: 39 :: rest) rfl (by decide)]
+    exact lexChar_esc_then e v he rest hur l k
+  | str items nx hok =>
+    have : (34 :: renderAll items ++ [34]) ++ rest = 34 :: renderAll items ++ 34 :: rest := by simp
+    rw [this, doNext_string _ 34 (renderAll items ++ 34 :: rest) rfl (by decide)]
+    exact lexString_items items hok rest hur l k
+
+theorem tokStart_of_head (b : UInt8) (tl : Bytes) (h1 : isSpace b = false) (h2 : b.toNat ≠ 47) (h3 : b.toNat < 128) :
+    TokStart (b :: tl) := by
+  refine ⟨b, tl, rfl, h1, by rw [isCont_false_iff]; omega, ?_, ?_⟩ <;> cases tl <;> simp [startsWith2, h2]
+
+theorem spell_tokStart {bs : Bytes} {t : Tok} {rest : Bytes} (hs : Spell bs t rest.head?) : TokStart (bs ++ rest) := by
+  cases hs with
+  | punct c t nx hp h47 =>
+    have hc := punct_some hp
+    have hsp : isSpace c = false := by
+      cases hs : isSpace c with
+      | false => rfl
+      | true =>
+        exfalso
+        simp [isSpace] at hs
+        rcases hs with ((h | h) | h) | h <;> rw [h] at hp <;> simp [punct] at hp
+    exact tokStart_of_head c rest hsp h47 hc.1
+  | div _ hnx =>
+    refine ⟨47, rest, rfl, by decide, by decide, ?_, ?_⟩
+    · cases rest with
+      | nil => simp [startsWith2]
+      | cons b r => have := (hnx b rfl).1; simp [startsWith2, this]
+    · cases rest with
+      | nil => simp [startsWith2]
+      | cons b r => have := (hnx b rfl).2; simp [startsWith2, this]
+  | shl => exact tokStart_of_head 60 _ (by decide) (by decide) (by decide)
+  | shr => exact tokStart_of_head 62 _ (by decide) (by decide) (by decide)
+  | ident _ _ hs _ =>
+    cases bs with
+    | nil => simp [identOk] at hs
+    | cons b0 tl =>
+      have hb0 : identStart b0 = true := by
+        simp only [identOk, Bool.and_eq_true] at hs; exact hs.1
+      have : (65 ≤ b0.toNat ∧ b0.toNat ≤ 90) ∨ b0.toNat = 95 ∨ (97 ≤ b0.toNat ∧ b0.toNat ≤ 122) := by
+        simp [identStart] at hb0; omega
+      exact tokStart_of_head b0 _ (by simp [isSpace]; omega) (by omega) (by omega)
+  | num r ds v nx hrx hne hds _ _ =>
+    obtain ⟨d0, dtl, hdd, h0⟩ : ∃ d0 dtl, radixPrefix r ++ ds = d0 :: dtl ∧ 48 ≤ d0.toNat ∧ d0.toNat ≤ 57 := by
+      rcases hrx with rfl | rfl | rfl | rfl
+      · exact ⟨48, 98 :: ds, by simp [radixPrefix], by decide⟩
+      · exact ⟨48, 111 :: ds, by simp [radixPrefix], by decide⟩
+      · cases ds with
+        | nil => exact absurd rfl hne
+        | cons a ds' => exact ⟨a, ds', by simp [radixPrefix], isDigit10_range (hds a (by simp))⟩
+      · exact ⟨48, 120 :: ds, by simp [radixPrefix], by decide⟩
+    rw [hdd]
+    exact tokStart_of_head d0 _ (by simp [isSpace]; omega) (by omega) (by omega)
+  | chr c nx hc => exact tokStart_of_head 39 _ (by decide) (by decide) (by decide)
+  | chrEsc e v nx he => exact tokStart_of_head 39 _ (by decide) (by decide) (by decide)
+  | str items nx hok => exact tokStart_of_head 34 _ (by decide) (by decide) (by decide)
+
+theorem skipLoop_tokStart {tail : Bytes} (h : TokStart tail) (g : Nat) (u : Bool) (l c : Nat) :
+    skipLoop (g + 1) ⟨tail, u, l, c⟩ = .go ⟨tail, u, l, c⟩ := by
+  obtain ⟨b, tl, hd, h1, h2, h3, h4⟩ := h
+  have := skipLoop_body g u l c [] tail (by simp) (by intro x hx; rw [hd] at hx; simp at hx; subst hx; exact ⟨h1, h2⟩)
+  simp only [List.nil_append, Pos.adv_nil] at this
+  rw [this]
+  simp [skipBody, h3, h4]
+
+/-! ### `next_token` on a layout -/
+
+theorem nextToken_layout (sep bs rest : Bytes) (t : Tok) (hsep : IsSep sep) (hs : Spell bs t rest.head?)
+    (hur : Utf8 rest) (l c : Nat) :
+    nextToken ⟨sep ++ bs ++ rest, false, l, c⟩ =
+      .tok ⟨(adv (l, c) sep).1, (adv (l, c) sep).2, t⟩
+        ⟨rest, false, (adv (l, c) (sep ++ bs)).1, (adv (l, c) (sep ++ bs)).2⟩ := by
+  unfold nextToken
+  have hsk := skipLoop_sep hsep (bs ++ rest) (utf8_spell hs hur) false
+    (fun l' c' => .go ⟨bs ++ rest, false, l', c'⟩) (fun g l' c' => skipLoop_tokStart (spell_tokStart hs) g false l' c')
+    ((sep ++ (bs ++ rest)).length + 1) l c (by simp only [List.length_append]; omega)
+  rw [List.append_assoc]
+  dsimp only
+  rw [hsk]
+  simp only
+  have hne : (!(bs ++ rest).isEmpty) = true := by
+    have := spell_ne_nil hs
+    cases bs with
+    | nil => exact absurd rfl this
+    | cons _ _ => simp
+  simp only [hne, if_true]
+  rw [doNext_spell bs rest t hs hur]
+  simp only
+  rw [Pos.adv_append]
+
+theorem utf8_sepEnd {d : Bytes} (h : IsSepEnd d) : Utf8 d := by
+  rcases h with h | ⟨a, body, rfl, ha, _, hub⟩
+  · simpa using utf8_sep h Utf8.nil
+  · exact utf8_sep ha (utf8_ascii_append [47, 47] (by decide) hub)
+
+theorem nextToken_end (trail : Bytes) (h : IsSepEnd trail) (l c : Nat) :
+    nextToken ⟨trail, false, l, c⟩ = .done ⟨[], false, (adv (l, c) trail).1, (adv (l, c) trail).2⟩ := by
+  unfold nextToken
+  rcases h with h | ⟨a, body, rfl, ha, hbody, hub⟩
+  · have hsk := skipLoop_sep h [] Utf8.nil false (fun l' c' => .go ⟨[], false, l', c'⟩)
+      (fun g l' c' => by simp [skipLoop]) (trail.length + 1) l c (by omega)
+    simp only [List.append_nil] at hsk
+    dsimp only
+    rw [hsk]
+    simp
+  · have htail : Utf8 ((47 : UInt8) :: 47 :: body) := utf8_ascii_append [47, 47] (by decide) hub
+    have hall : ∀ x ∈ ((47 : UInt8) :: 47 :: body), x.toNat ≠ 10 := by
+      intro x hx
+      rcases List.mem_cons.mp hx with rfl | hx
+      · decide
+      · rcases List.mem_cons.mp hx with rfl | hx
+        · decide
+        · exact hbody x hx
+    have hT : ∀ g l' c', skipLoop (g + 1) ⟨47 :: 47 :: body, false, l', c'⟩ =
+        .go ⟨[], false, (adv (l', c') (47 :: 47 :: body)).1, (adv (l', c') (47 :: 47 :: body)).2⟩ := by
+      intro g l' c'
+      have := skipLoop_body g false l' c' [] (47 :: 47 :: body) (by simp) (by intro x hx; simp at hx; subst hx; decide)
+      simp only [List.nil_append, Pos.adv_nil] at this
+      rw [this]
+      unfold skipBody
+      have hsw : startsWith2 (47 :: 47 :: body) 47 47 = true := by simp [startsWith2]
+      have hpos : position (fun b => b.toNat == 10) (47 :: 47 :: body) = none :=
+        position_none_of_all _ (by intro x hx; simpa using hall x hx)
+      simp only [hsw, if_true, hpos]
+      rw [updatePos_eq (good_of_utf8 htail)]
+      simp
+    have hsk := skipLoop_sep ha (47 :: 47 :: body) htail false _ hT ((a ++ 47 :: 47 :: body).length + 1) l c
+      (by simp only [List.length_append]; omega)
+    dsimp only
+    rw [hsk]
+    simp only
+    simp [Pos.adv_append]
+
+/-! ### the whole text -/
+
+theorem utf8_ltext {L : List LTok} {trail : Bytes} (h : LOk L trail) : Utf8 (ltext L trail) := by
+  induction L with
+  | nil => exact utf8_sepEnd h
+  | cons x r ih =>
+    obtain ⟨h1, h2, h3⟩ := h
+    simp only [ltext]
+    rw [List.append_assoc]
+    exact utf8_sep h1 (utf8_spell h2 (ih h3))
+
+theorem run_layout (L : List LTok) (trail : Bytes) (h : LOk L trail) (pre : Bytes) (f : Nat) (hf : L.length + 1 ≤ f) :
+    run f ⟨ltext L trail, false, (Pos.of pre).1, (Pos.of pre).2⟩ =
+      .ok ⟨ltoks pre L, none, (Pos.of (pre ++ ltext L trail)).1, (Pos.of (pre ++ ltext L trail)).2⟩ := by
+  induction L generalizing pre f with
+  | nil =>
+    obtain ⟨g, rfl⟩ : ∃ g, f = g + 1 := ⟨f - 1, by omega⟩
+    simp only [ltext, ltoks, run]
+    rw [nextToken_end trail h]
+    simp only
+    rw [Pos.of_append]
+  | cons x r ih =>
+    obtain ⟨g, rfl⟩ : ∃ g, f = g + 1 := ⟨f - 1, by omega⟩
+    obtain ⟨h1, h2, h3⟩ := h
+    simp only [ltext, ltoks, run]
+    rw [nextToken_layout x.sep x.spell (ltext r trail) x.tok h1 h2 (utf8_ltext h3)]
+    simp only
+    have e1 : adv (Pos.of pre) x.sep = Pos.of (pre ++ x.sep) := (Pos.of_append _ _).symm
+    have e2 : adv (Pos.of pre) (x.sep ++ x.spell) = Pos.of (pre ++ x.sep ++ x.spell) := by
+      rw [List.append_assoc]; exact (Pos.of_append _ _).symm
+    have := ih h3 (pre ++ x.sep ++ x.spell) g (by simp at hf; omega)
+    rw [e1, e2, this]
+    simp [Out.push, List.append_assoc]
+
+theorem llen_le {L : List LTok} {trail : Bytes} (h : LOk L trail) : L.length ≤ (ltext L trail).length := by
+  induction L with
+  | nil => simp
+  | cons x r ih =>
+    obtain ⟨_, h2, h3⟩ := h
+    have := ih h3
+    have hne := spell_ne_nil h2
+    have : 0 < x.spell.length := List.length_pos_iff.mpr hne
+    simp [ltext]; omega
+
+/-- **the tokenizer reads a layout back exactly**: the token of each spelling at the specified position of the
+text before the spelling, no error, final position = position of the end of the text -/
+theorem tokens_layout (L : List LTok) (trail : Bytes) (h : LOk L trail) :
+    tokens (ltext L trail) =
+      .ok ⟨ltoks [] L, none, (Pos.of (ltext L trail)).1, (Pos.of (ltext L trail)).2⟩ := by
+  unfold tokens
+  rw [new_of_utf8 _ (utf8_ltext h)]
+  have := run_layout L trail h [] ((ltext L trail).length + 2) (by have := llen_le h; omega)
+  simp only [List.nil_append] at this
+  exact this
 
 end Trion.Lex
